@@ -136,6 +136,7 @@ func (s *rawServer) ServeHTTP(w http.ResponseWriter, r *http.Request) {
 	s.cur, s.curRaw, s.curWS, s.curN = ws.UnderlyingConn(), ws.UnderlyingConn(), ws, n
 	s.mu.Unlock()
 	s.r.log(Event{K: "session", N: n})
+	defer s.r.log(Event{K: "released", N: n})
 	for {
 		var m map[string]interface{}
 		if err := ws.ReadJSON(&m); err != nil {
@@ -225,6 +226,7 @@ func (s *rawServer) session(raw net.Conn) {
 	s.cur, s.curRaw, s.curN = c, raw, n
 	s.mu.Unlock()
 	s.r.log(Event{K: "session", N: n})
+	defer s.r.log(Event{K: "released", N: n}) // the read side ended: the client closed (or the fault did)
 	for {
 		var m map[string]interface{}
 		if err := dec.Decode(&m); err != nil {
@@ -443,7 +445,8 @@ func Replay(c Case) Result {
 	case <-time.After(8 * time.Second):
 		endRes = "close-hangs"
 	}
-	time.Sleep(10 * time.Millisecond)
+	// every connection the client ever made is closed by now (the old ones when it replaced them)
+	waitFor(func() bool { return r.count("released") >= r.count("session") }, 2*time.Second)
 	r.log(Event{K: "end", Res: endRes})
 	r.mu.Lock()
 	res.Actual = append([]Event(nil), r.evs...)
